@@ -15,11 +15,12 @@ import (
 // MessageIDSource given to the connection, verified at the transport), an
 // optional goroutine blocked in Conn.Ping, and the server payloads fed in order.
 type tcase struct {
-	Kind string  `json:"kind"`          // generator class
-	Src  string  `json:"src,omitempty"` // corpus file / base description
-	IDs  []int64 `json:"ids"`
-	Dec  []int   `json:"dec,omitempty"` // per invocation: 0 = Output accepts any bytes, 1 = Output decodes with the real tg+mt type map
-	Ping bool    `json:"ping,omitempty"`
+	Kind  string   `json:"kind"`          // generator class
+	Src   string   `json:"src,omitempty"` // corpus file / base description
+	IDs   []int64  `json:"ids"`
+	Dec   []int    `json:"dec,omitempty"` // per invocation: 0 = Output accepts any bytes, 1 = Output decodes with the real tg+mt type map
+	Ping  bool     `json:"ping,omitempty"`
+	Forms []string `json:"forms,omitempty"` // C24 arm: the form of the one answer each invocation gets
 
 	Steps []tstep `json:"steps"`
 
